@@ -326,23 +326,42 @@ pub fn run_plan(plan: &Plan, env: &mut Env, corpus: &Arc<Vec<String>>, forced: O
             }
         }
     }
-    // monitor: wait for the simulated threads; if the baton holder makes no progress for 400 ms it
-    // is presumed blocked (on a lock held by a parked thread) and the baton is taken away
+    // monitor: wait for the simulated threads; if the baton holder passes no yield point and is asleep in the kernel
+    // (or, as a fallback, makes no progress for 1.5 s) it is presumed blocked (on a lock held by a parked thread) and the baton is taken away
     {
         let mut last = sched.heartbeat.load(std::sync::atomic::Ordering::Relaxed);
         let mut still = Instant::now();
+        let mut asleep: Option<(usize, u32)> = None; // (holder, consecutive polls seen asleep)
         while !handles.iter().all(|h| h.is_finished()) {
-            std::thread::sleep(std::time::Duration::from_millis(2));
+            std::thread::sleep(std::time::Duration::from_micros(500));
             let now = sched.heartbeat.load(std::sync::atomic::Ordering::Relaxed);
             if now != last {
                 last = now;
                 still = Instant::now();
-            } else if still.elapsed().as_millis() > 400 {
+                asleep = None;
+                continue;
+            }
+            // no yield point passed since the last poll: is the holder asleep in the kernel?
+            let mut blocked = false;
+            match sched.holder_sleeping() {
+                Some((h, true)) => {
+                    let n = match asleep {
+                        Some((h0, n)) if h0 == h => n + 1,
+                        _ => 1,
+                    };
+                    asleep = Some((h, n));
+                    // asleep on four consecutive polls (2 ms) with no progress in between
+                    blocked = n >= 4;
+                }
+                _ => asleep = None,
+            }
+            if blocked || still.elapsed().as_millis() > 1500 {
                 if !sched.force_unblock() {
                     println!("HARNESS-ERROR L2a: every simulated thread is blocked (deadlock inside the code under test?); cannot continue");
                     std::process::exit(2);
                 }
                 still = Instant::now();
+                asleep = None;
             }
             if t0.elapsed().as_secs() > 600 {
                 println!("HARNESS-ERROR L2a: a plan ran for more than 600 s");
